@@ -200,6 +200,58 @@ def match_iter(prog: Program) -> RuleResult:
     return r
 
 
+def match_factory(prog: Program) -> RuleResult:
+    """What a pattern's argument is decides what the pattern means: a variable is used as it is, a class starts a nested match, nothing
+    (None) leaves the type open, and *every other value* is a literal to compare with - the empty collection, 0 and '' included
+    (match_all([]) means "the same elements as the empty set", match_any([]) can match nothing)."""
+    r = RuleResult("MATCH-FACTORY", "every non-class, non-variable, non-None argument of a pattern becomes a literal", floor=10)
+    kinds = {
+        "a variable": dict(var=True),
+        "None": dict(var=False, none=True, truth=False, cls=False),
+        "a class": dict(var=False, none=False, truth=True, cls=True),
+        "a truthy value": dict(var=False, none=False, truth=True, cls=False),
+        "a falsy value ([], (), 0, '')": dict(var=False, none=False, truth=False, cls=False),
+    }
+    for fname, ctor in (("entity_matching", "Match"), ("entity_selection", "Select")):
+        f = prog.func("match." + fname)
+        p = f.params[0]
+        paths = explore(prog, f, [Sym(a) for a in f.params], inline=lambda q: False)
+        for label, facts in kinds.items():
+            hits = []
+            for val, out, _ in paths:
+                ok = True
+                for a, v in val.items():
+                    if a[0] == "isinstance" and a[1] == p and a[2].endswith("CanBehaveLikeAVariable"):
+                        want = facts["var"]
+                    elif not facts.get("var") and a[0] == "is" and set(a[1:]) == {"None", p}:
+                        want = facts["none"]
+                    elif not facts.get("var") and a[0] == "isinstance" and a[1] == p and a[2] == "type":
+                        want = facts["cls"]
+                    elif not facts.get("var") and a[0] == "truth" and a[1] == p:
+                        want = facts["truth"]
+                    elif facts.get("var"):
+                        continue  # decided by the first test
+                    else:
+                        raise AnalysisError(f"MATCH-FACTORY: {fname} consults {a}")
+                    ok = ok and (v == want)
+                if ok:
+                    hits.append(out)
+            outs = {repr(o[1]) if o[0] == "return" else f"raise {o[1]}" for o in hits}
+            if label == "a variable":
+                good = len(outs) == 1 and f"variable={p}" in next(iter(outs)) and next(iter(outs)).startswith(ctor + "(")
+                want_txt = f"{ctor}(..., variable=<the variable>)"
+            elif label in ("None", "a class"):
+                good = len(outs) == 1 and "variable=" not in next(iter(outs)) and next(iter(outs)).startswith(ctor + "(")
+                want_txt = f"{ctor}(<type>) without a variable"
+            else:
+                good = len(outs) == 1 and f"variable=Literal({p})" in next(iter(outs))
+                want_txt = f"{ctor}(..., variable=Literal(<the value>))"
+            r.check(good, f"{fname}#{label.split(' (')[0]}", site(f), label, f"{sorted(outs)}",
+                    f"for {label} the factory builds {sorted(outs)}, the pattern semantics demand {want_txt}: " +
+                    ("a falsy literal such as the empty collection is taken for 'no type given', the attribute constraint disappears and match_all([]) / match_any([]) match everything" if "falsy" in label else "the argument is misclassified"))
+    return r
+
+
 def match_ops(prog: Program) -> RuleResult:
     r = RuleResult("MATCH-OPS", "contains / in_ put container and item into the slots the comparator applies them from", floor=3)
     ent = prog.module("entity_query_language.entity")
@@ -341,6 +393,6 @@ def run(prog: Program, tier: str) -> List[RuleResult]:
     from .c01 import ep_quant, ep_thread
 
     # match_any compiles to the existential quantifier: one answer per binding of the free variables
-    return [match_table(prog), match_iter(prog), match_ops(prog), ident_dedup(prog), domain_cache(prog), ep_quant(prog),
+    return [match_table(prog), match_iter(prog), match_factory(prog), match_ops(prog), ident_dedup(prog), domain_cache(prog), ep_quant(prog),
             # selected inner parts are evaluated under the bindings of the matched element: the row threading of C01
             ep_thread(prog)]
